@@ -775,6 +775,15 @@ def generate(ctx):
             lattices.append(gen_base(rng, system))
     for _ in range(3 * n_lat):
         lattices.append(gen_dyadic(rng))
+    # fixed strata (every run): the standard base turned by an exact half turn about e1, e2, e3 and by a quarter turn about
+    # e3 - such a base is still triangular / has zeros in the places an "already aligned?" shortcut would look at
+    for system in ("triclinic", "hexagonal", "monoclinic"):
+        if system not in SYSTEMS:
+            continue
+        for q in ([0.0, 1.0, 0.0, 0.0], [0.0, 0.0, 1.0, 0.0], [0.0, 0.0, 0.0, 1.0], [float(np.sqrt(0.5)), 0.0, 0.0, float(np.sqrt(0.5))]):
+            p = gen_params(rng, system)
+            B = std_base(*p) @ rotmat(q).T
+            lattices.append({"system": system, "params": p, "q": q, "rot": "half-turn-axis", "B": [float(x) for x in B.reshape(-1)]})
     for li in range(0, len(lattices) - 1, 3):
         shape = [(1,), (3,), (2, 2)][li % 3]
         n = int(np.prod(shape))
@@ -797,7 +806,7 @@ def generate(ctx):
         ctx.count(f"phase_structure/{tag}/atoms{min(nat, 1)}", ("ps", B, frac))
         yield "phase_structure", {"B": B, "frac": frac}
         if not dy:
-            route = "baserot" if li % 2 else "base"
+            route = "baserot" if li % 2 and lat["rot"] != "half-turn-axis" else "base"
             c = {"params": lat["params"], "q": lat["q"], "B": B, "route": route, "frac": frac}
             ctx.count(f"alignment/{tag}/{route}", ("ali", lat["params"], lat["q"]), nontrivial=lat["rot"] != "identity")
             ctx.sample({"site": "alignment", **c})
